@@ -206,7 +206,11 @@ for _k, _v in FIFTH_PASS.items():
     CLAIMED[_k]["text"] += _v
 SIXTH_PASS = {
  "C01": " Sixth pass: self-comparison also through locals filled by sqlx.Has; each side of a from/to pair is normalised under a condition on that side only.",
- "C02": " Sixth pass: each side of a from/to pair is normalised under a condition on that side only (ReferenceChanged).",
+ "C02": " Sixth pass: each side of a from/to pair is normalised under a condition on that side only (ReferenceChanged); no strings.Trim* cutset mentions the string it trims (found D50).",
+ "C03": " Sixth pass: the SQLite inspector classifies both ' and \" quoted defaults as literals.",
+ "C06": " Sixth pass: no bounded read (io.LimitReader, CopyN, ReadFull, LimitedReader) in sql/migrate; readHashFile reads the sum file whole.",
+ "C10": " Sixth pass: the effective-mode derivation point is found by shape when tx.modeFor was renamed or turned into a package function.",
+ "C13": " Sixth pass: tx.mode may be read in the derivation function or handed to it as an argument.",
  "C04": " Sixth pass: the expansion of a Modify* builds Drop* from .From and Add* from .To (mirrored in reverse lists).",
  "C05": " Sixth pass: the SQLite inspector's Scan order rule (R03q) is also decided here, since a swapped STRICT/WITHOUT ROWID flag changes value affinities on a rebuild.",
  "C07": " Sixth pass: a dialect scanned with BackslashEscapes quotes literals through strconv.Quote or an explicit backslash replacement; a %s argument produced by a named function returning only constants is accepted.",
